@@ -10,14 +10,13 @@ writes (any sizes, any chunking) and ALL lists of read-buffer sizes.
 `returned rs` is what the callers are told they received (`data[:n]` of every `Read`);
 `copied rs` is what `Read` actually copied into the callers' buffers.
 
-The property as stated (`stream_exact_full`) is FALSE for the code as it is (known finding
-F18: the `recvBuffer` branch of `Read` returns the named result `n` = 0), refuted below
-for every good AEAD. What does hold: the bytes copied into the buffers are exactly the
-stream (`stream_copied_exact`), what is returned is always a subsequence of the stream —
-nothing duplicated, nothing reordered, only lost (`returned_sublist_stream`) —, and the
-stream is exact whenever every read buffer has at least `dataMaxSize` = 1024 bytes
-(`stream_exact_partial`; this is how the node's own `MConnection` reads). With the one-word
-repair (`readFixed`) the full statement holds (`stream_exact_fixed`).
+The model mirrors the code after the repair of F18 (commit a002565b). The property as
+stated is now proved at full strength: `stream_exact` — what the callers are TOLD they
+received is a prefix of the written stream and the whole stream once the connection is
+drained, for every good AEAD, all writes and all read sizes. Before the repair the
+`recvBuffer` branch of `Read` returned `n` = 0 and the statement was false (witness: the
+peer writes 3 bytes, `Read(2)`, `Read(1)`); the witness is kept below as an `example` that
+now satisfies the property, and the tie `Ties.C32.read_copies_tied` pins the repaired statement.
 -/
 import BytomModel.Lemmas.SecretConn
 import BytomModel.Lemmas.SecretConnNonce
@@ -46,7 +45,7 @@ theorem readMany_inv (a : Aead) (ha : Good a) (key : Bytes) (sizes : List Nat) :
   | nil => intro r cs h; exact ⟨0, Nat.zero_le _, by simpa [readMany] using h, rfl, by simp [readMany, copied]⟩
   | cons l ls ih =>
     intro r cs h
-    obtain ⟨cs', h', hcat, _, _, _, _, _, hfr⟩ := read_step a ha key r cs l h
+    obtain ⟨cs', h', hcat, _, hfr⟩ := read_step a ha key r cs l h
     obtain ⟨k, hk, hh, hn, hc⟩ := ih (read a key r l).1 cs' h'
     simp only [readMany]
     rcases hfr with ⟨rfl, hnn⟩ | ⟨c, rfl, hnn⟩
@@ -57,65 +56,18 @@ theorem readMany_inv (a : Aead) (ha : Good a) (key : Bytes) (sizes : List Nat) :
       simp only [copied, List.map_cons, List.flatten_cons, List.drop_succ_cons] at hc ⊢
       rw [List.append_assoc, hc, hcat]; simp
 
-/-- `read` and `readFixed` move the receiver identically and copy the same bytes; the
-    repaired version reports exactly what it copied -/
-theorem readFrame_n (a : Aead) (key : Bytes) (r : Receiver) (len : Nat) :
-    (readFrame a key r len).2.n = (readFrame a key r len).2.written.length := by
-  unfold readFrame
-  split
-  · split <;> rfl
-  · dsimp only
-    split
-    · rfl
-    · split
-      · split
-        · rfl
-        · split <;> rfl
-      · rfl
-
-theorem readFixed_vs_read (a : Aead) (key : Bytes) (r : Receiver) (len : Nat) :
-    (readFixed a key r len).1 = (read a key r len).1 ∧
-    (readFixed a key r len).2.written = (read a key r len).2.written ∧
-    (readFixed a key r len).2.n = (readFixed a key r len).2.written.length := by
-  unfold readFixed SecretConn.read
-  by_cases hb : r.buf = []
-  · simp [hb, readFrame_n]
-  · simp [hb]
-
-theorem readMany_fixed (a : Aead) (key : Bytes) (sizes : List Nat) : ∀ (r : Receiver),
-    (readMany (readFixed a key) r sizes).1 = (readMany (read a key) r sizes).1 ∧
-    copied (readMany (readFixed a key) r sizes).2 = copied (readMany (read a key) r sizes).2 ∧
-    returned (readMany (readFixed a key) r sizes).2 = copied (readMany (readFixed a key) r sizes).2 := by
+/-- every call reports exactly what it copied, so what the callers are told they received is
+    what was copied into their buffers -/
+theorem returned_eq_copied (a : Aead) (key : Bytes) (sizes : List Nat) : ∀ (r : Receiver),
+    returned (readMany (read a key) r sizes).2 = copied (readMany (read a key) r sizes).2 := by
   induction sizes with
   | nil => intro r; simp [readMany, copied, returned]
   | cons l ls ih =>
     intro r
-    obtain ⟨e1, e2, e3⟩ := readFixed_vs_read a key r l
-    obtain ⟨i1, i2, i3⟩ := ih (readFixed a key r l).1
-    simp only [readMany, copied, returned, List.map_cons, List.flatten_cons] at *
-    simp only [e1] at i1 i2 i3 ⊢
-    refine ⟨i1, by rw [i2, e2], ?_⟩
-    rw [i3, e3, List.take_length]
-
-/-- what a (defective) read reports is a prefix-or-nothing of what it copied -/
-theorem read_reports (a : Aead) (key : Bytes) (r : Receiver) (len : Nat) :
-    (read a key r len).2.n = (read a key r len).2.written.length ∨ (read a key r len).2.n = 0 := by
-  unfold SecretConn.read
-  by_cases hb : r.buf = []
-  · left; simp [hb, readFrame_n]
-  · right; simp [hb]
-
-theorem returned_sublist_copied (a : Aead) (key : Bytes) (sizes : List Nat) : ∀ (r : Receiver),
-    (returned (readMany (read a key) r sizes).2).Sublist (copied (readMany (read a key) r sizes).2) := by
-  induction sizes with
-  | nil => intro r; simp [readMany, returned, copied]
-  | cons l ls ih =>
-    intro r
-    simp only [readMany, returned, copied, List.map_cons, List.flatten_cons]
-    apply List.Sublist.append _ (ih _)
-    rcases read_reports a key r l with h | h
-    · rw [h, List.take_length]; exact List.Sublist.refl _
-    · rw [h]; simp
+    simp only [readMany, copied, returned, List.map_cons, List.flatten_cons]
+    have := ih (read a key r l).1
+    simp only [copied, returned] at this
+    rw [this, read_n, List.take_length]
 
 /-! ### the stream theorems -/
 
@@ -160,24 +112,43 @@ def StreamExact (a : Aead) (rd : Receiver → Nat → Receiver × ReadRes) (key 
     returned out.2 <+: datas.flatten ∧
     (out.1.buf = [] → out.1.wire = [] → returned out.2 = datas.flatten)
 
-/-- full strength: for every good AEAD and key, the code's `Read` delivers the exact stream -/
-def stream_exact_full : Prop := ∀ (a : Aead), Good a → ∀ key, StreamExact a (read a key) key
-
-/-- **stream_exact_fixed** — with `n = copy(…)` in the buffered branch the property holds
-for all writes and all read sizes. -/
-theorem stream_exact_fixed (a : Aead) (ha : Good a) (key : Bytes) : StreamExact a (readFixed a key) key := by
+/-- **stream_exact** — the property at full strength, about the code's `Read`: for every good
+AEAD and key, every list of writes (any sizes, any chunking) and every list of read-buffer
+sizes (including 0 and sizes smaller than a buffered chunk), the bytes returned to the
+callers, in call order, are a prefix of the bytes written — no loss, no duplication, no
+reordering — and are all of them once the connection is drained. -/
+theorem stream_exact (a : Aead) (ha : Good a) (key : Bytes) : StreamExact a (read a key) key := by
   intro n0 datas eof sizes out
-  obtain ⟨e1, e2, e3⟩ := readMany_fixed a key sizes (receiverAfter a key n0 datas eof)
+  have e := returned_eq_copied a key sizes (receiverAfter a key n0 datas eof)
   obtain ⟨p1, p2⟩ := stream_copied_exact a ha key n0 datas eof sizes
-  change returned out.2 = copied out.2 at e3
-  change out.1 = _ at e1
-  rw [e3, e2, e1]
+  change returned out.2 = copied out.2 at e
+  rw [e]
   exact ⟨p1, p2⟩
 
-/-- the refutation works for EVERY good AEAD: peer writes `[1,2,3]`, reads of 2 then 1 byte -/
-theorem stream_exact_refuted_for (a : Aead) (ha : Good a) (key : Bytes) : ¬ StreamExact a (read a key) key := by
-  intro h
-  obtain ⟨_, hd⟩ := h [] [[1, 2, 3]] true [2, 1]
+/-- the bytes returned so far plus what is buffered and still on the wire are the stream:
+    nothing is ever lost inside the connection -/
+theorem returned_sublist_stream (a : Aead) (ha : Good a) (key n0 : Bytes) (datas : List Bytes) (eof : Bool)
+    (sizes : List Nat) :
+    (returned (readMany (read a key) (receiverAfter a key n0 datas eof) sizes).2).Sublist datas.flatten :=
+  ((stream_exact a ha key n0 datas eof sizes).1).sublist
+
+/-- reads whose buffers hold a whole chunk never leave anything in `recvBuffer` (the
+    "CONTRACT: data smaller than dataMaxSize is read atomically" of the source) -/
+theorem big_reads_no_buffer (a : Aead) (ha : Good a) (key : Bytes) (sizes : List Nat)
+    (hs : ∀ l ∈ sizes, dataMaxSize ≤ l) : ∀ (r : Receiver) (cs : List Bytes), Holds a key r cs → r.buf = [] →
+    (readMany (read a key) r sizes).1.buf = [] := by
+  induction sizes with
+  | nil => intro r cs _ hb; simp [readMany, hb]
+  | cons l ls ih =>
+    intro r cs h hb
+    obtain ⟨cs', h', _, hbuf, _⟩ := read_step a ha key r cs l h
+    have hb' := hbuf hb (hs l (by simp))
+    simpa [readMany] using ih (fun x hx => hs x (List.mem_cons_of_mem _ hx)) _ cs' h' hb'
+
+/-- the former witness of F18 (peer writes `[1,2,3]`, reads of 2 then 1 byte), for EVERY good
+    AEAD: the second read now returns the buffered byte and the stream is complete -/
+example (a : Aead) (ha : Good a) (key : Bytes) :
+    returned (readMany (read a key) (receiverAfter a key [] [[1, 2, 3]] true) [2, 1]).2 = [1, 2, 3] := by
   have hch : chunks [1, 2, 3] = [[1, 2, 3]] := by decide
   have hw : (writeMany a key { nonce := [], connOpen := true } [[1, 2, 3]]).2 = encode a key [] [[1, 2, 3]] := by
     rw [(writeMany_open a key [[1, 2, 3]] _ rfl).1]; simp [hch]
@@ -188,60 +159,9 @@ theorem stream_exact_refuted_for (a : Aead) (ha : Good a) (key : Bytes) : ¬ Str
     simp only [SecretConn.read, receiverAfter, ne_eq, not_true_eq_false, if_false]
     simpa [receiverAfter, encode] using e1
   have r2 : read a key { buf := [3], nonce := incr2Nonce [], wire := [], eof := true } 1 =
-      ({ buf := [], nonce := incr2Nonce [], wire := [], eof := true }, { n := 0, err := .none, written := [3] }) := by
+      ({ buf := [], nonce := incr2Nonce [], wire := [], eof := true }, { n := 1, err := .none, written := [3] }) := by
     simp [SecretConn.read]
-  simp [readMany, r1, r2, returned] at hd
-
-theorem stream_exact_full_refuted : ¬ stream_exact_full := by
-  intro h
-  -- any good AEAD will do; a trivial one: append 16 zero bytes, strip them again
-  let triv : Aead := { enc := fun _ _ m => m ++ List.replicate overhead 0,
-                       dec := fun _ _ c => some (c.take (c.length - overhead)) }
-  have hg : Good triv := ⟨by intro k n m; simp [triv], by intro k n m; simp [triv]⟩
-  exact stream_exact_refuted_for triv hg [] (h triv hg [])
-
-/-- **returned_sublist_stream** — even with the defect, for all writes and all read sizes,
-what the callers are told they received is a SUBSEQUENCE of the written stream: bytes can
-be lost, never duplicated, reordered or invented. -/
-theorem returned_sublist_stream (a : Aead) (ha : Good a) (key n0 : Bytes) (datas : List Bytes) (eof : Bool)
-    (sizes : List Nat) :
-    (returned (readMany (read a key) (receiverAfter a key n0 datas eof) sizes).2).Sublist datas.flatten := by
-  obtain ⟨⟨t, ht⟩, _⟩ := stream_copied_exact a ha key n0 datas eof sizes
-  exact (returned_sublist_copied a key sizes _).trans (ht ▸ List.sublist_append_left _ _)
-
-/-- reads whose buffers hold a whole chunk never leave anything in `recvBuffer` … -/
-theorem big_reads_no_buffer (a : Aead) (ha : Good a) (key : Bytes) (sizes : List Nat)
-    (hs : ∀ l ∈ sizes, dataMaxSize ≤ l) : ∀ (r : Receiver) (cs : List Bytes), Holds a key r cs → r.buf = [] →
-    (readMany (read a key) r sizes).1.buf = [] ∧
-    returned (readMany (read a key) r sizes).2 = copied (readMany (read a key) r sizes).2 := by
-  induction sizes with
-  | nil => intro r cs _ hb; simp [readMany, returned, copied, hb]
-  | cons l ls ih =>
-    intro r cs h hb
-    obtain ⟨cs', h', _, _, _, _, hn, hbuf, _⟩ := read_step a ha key r cs l h
-    have hb' := hbuf hb (hs l (by simp))
-    obtain ⟨i1, i2⟩ := ih (fun x hx => hs x (List.mem_cons_of_mem _ hx)) _ cs' h' hb'
-    simp only [readMany, returned, copied, List.map_cons, List.flatten_cons] at *
-    refine ⟨i1, ?_⟩
-    rw [i2]
-    rcases hn with hn | ⟨hne, _⟩
-    · rw [hn, List.take_length]
-    · exact absurd hb hne
-
-/-- **stream_exact_partial** — the property as stated holds, for every good AEAD, all writes
-and all read sequences in which every buffer has at least `dataMaxSize` (1024) bytes — the
-"CONTRACT" comment of the source, and the way `MConnection` (bufio, 1024-byte minimum) reads. -/
-theorem stream_exact_partial (a : Aead) (ha : Good a) (key n0 : Bytes) (datas : List Bytes) (eof : Bool)
-    (sizes : List Nat) (hs : ∀ l ∈ sizes, dataMaxSize ≤ l) :
-    let out := readMany (read a key) (receiverAfter a key n0 datas eof) sizes
-    returned out.2 <+: datas.flatten ∧
-    (out.1.buf = [] → out.1.wire = [] → returned out.2 = datas.flatten) := by
-  intro out
-  obtain ⟨_, hr⟩ := big_reads_no_buffer a ha key sizes hs _ _ (receiverAfter_holds a key n0 datas eof) rfl
-  obtain ⟨p1, p2⟩ := stream_copied_exact a ha key n0 datas eof sizes
-  change returned out.2 = copied out.2 at hr
-  rw [hr]
-  exact ⟨p1, p2⟩
+  simp [readMany, r1, r2, returned]
 
 /-- **nonces_in_step** — after any sequence of reads the receiver's nonce is the sender's
 start nonce advanced by exactly the number of frames consumed, i.e. the nonce under which the
@@ -398,7 +318,6 @@ example : (List.replicate 24 (0 : UInt8)).length = nonceSize := by decide
 example : incr2Nonce [0, 0xff, 0xff, 0xfe] = [1, 0, 0, 0] ∧ incr2Nonce [0xff, 0xff] = [0, 1] := by decide
 /-- test: a hash function with 24-byte output satisfies the non-emptiness hypothesis of `nonces_cross` -/
 example : (⟨fun _ => List.replicate 24 7, fun _ => []⟩ : Hashes).hash24 [] ≠ [] := by decide
-/-- test: three bytes, reads of 2 and 1 with the toy AEAD — one byte is lost for the caller -/
-example : chunks [1, 2, 3] = [[1, 2, 3]] := by decide
+example : StreamExact toy (read toy []) [] := stream_exact toy toy_good []
 
 end BytomModel.Props.C32
